@@ -5,7 +5,7 @@
 //       prog:  main=stop,join ; s1=try:1,fut:2:t,count ; s2=enq:3:s
 //         submitter ops:  try:<id>[:kind]  enq:<id>[:kind]  fut:<id>[:kind]  count
 //            kind n (plain), t (throws), s (submits task id+50 from inside the task), p (has a schedule point inside),
-//                 l (long: sleeps 8 s of virtual time)
+//                 l (long: sleeps 20 s of virtual time - longer than stop()'s drain and shutdown polling together)
 //         main ops (after constructing the pool and starting the submitters; destruction is always last):
 //            join (wait for the submitters)  drain  stop  count  idle (sleep 3 idle timeouts)  restart (stop, reset, start)
 //   drv_s_pool dfs <initial> <max> <queueCap> <idleMs> <prog> <preemption bound> <max executions> <out.ndjson> [parallel]
@@ -82,7 +82,7 @@ static std::function<int()> makeTask(Shared &sh, int id, char kind)
   {
     sh.tr.add(vf::Ev("TaskRun").i("id", id));
     if (kind == 'p') vf::point("task");
-    if (kind == 'l') std::this_thread::sleep_for(std::chrono::seconds(8)); // a long task (virtual time): outlasts stop()'s bounded polling
+    if (kind == 'l') std::this_thread::sleep_for(std::chrono::seconds(20)); // a long task (virtual time): outlasts stop()'s bounded polling
     if (kind == 's')
     {
       int cid = id + 50;
